@@ -31,6 +31,11 @@ ADDING passes CSE and OutputFix on `validModel` inputs (`C14_keeps_sorted_add`, 
 Use-def / ownership / names: RemoveUnusedNodes and IdentityElimination written as programs over C01's kernel
 (`Model/PassKernel.lean`) keep C01's invariant `WF` and are the replay of the public mutator calls they issue
 (`C14_wf_remove_unused_nodes`, `C14_wf_identity_elimination`, corollaries of `C01_step_any`).
+
+Wave 5 (`Model/PassKernel2.lean`, `Lemmas/PassKernel2.lean`, `Lemmas/PassKernelNames.lean`, `PassKernelNames2.lean`):
+CSE, LiftConstants, LiftSubgraphInitializers and Deduplicate(Hashed) as kernel programs (`C14_wf_cse`,
+`C14_wf_lift_constants`, `C14_wf_lift_sub_inits`, `C14_wf_dedup`) and 'names of kept objects are kept'
+(`C14_names_dedup`, `C14_names_lift_constants`, `C14_names_kept`, `C14_names_initializers`).
 -/
 import IrVerif.Model.PassInfra
 import IrVerif.Lemmas.PassInfra
@@ -49,6 +54,9 @@ import IrVerif.Lemmas.PassFlags11
 import IrVerif.Lemmas.PassFlags12
 import IrVerif.Lemmas.PassFlags14
 import IrVerif.Lemmas.PassKernel
+import IrVerif.Lemmas.PassKernel2
+import IrVerif.Lemmas.PassKernelNames2
+import IrVerif.Lemmas.PassFlags15
 import IrVerif.Props.C05
 import IrVerif.Props.C01
 namespace IrVerif.PassInfra
@@ -2081,6 +2089,90 @@ theorem C14_wf_output_fix (fuel : Nat) (w : World) (g : Nat) (funcs : List Nat) 
     (ofixModelK fuel w g funcs).w = replay w (ofixModelK fuel w g funcs).trace.reverse :=
   ⟨(ofixModelK_inv fuel w g funcs h).wf, (ofixModelK_inv fuel w g funcs h).rep⟩
 
+/-- **C14_wf_cse** (wave 5): CommonSubexpressionEliminationPass written as a program over C01's kernel
+    (`Model/PassKernel2.lean`; calls: `ir.Value(name=...)`, `ir.node("Identity", inputs=[new], outputs=[value])`,
+    `graph.outputs[i] = ...`, `graph.insert_before(node, identity)`, `new_value.name = graph_output.name`,
+    `convenience.replace_all_uses_with(old, new)`, `graph.remove(node, safe=True)`), for ANY classification `akey` of
+    the attribute values of the nodes (the part of the decision that is outside C01's world): it keeps C01's invariant
+    whether it returns or raises, and the world it leaves is exactly the replay of the calls it issued. -/
+theorem C14_wf_cse (exact : Bool) (akey : Nat → Option Nat) (w : World) (g : Nat) (h : WF w) :
+    WF (cseModelK exact akey w g).1.w ∧
+    (cseModelK exact akey w g).1.w = replay w (cseModelK exact akey w g).1.trace.reverse :=
+  ⟨(cseModelK_inv exact akey w g h).wf, (cseModelK_inv exact akey w g h).rep⟩
+
+/-- **C14_wf_lift_constants** (wave 5): the same for LiftConstantsToInitializersPass (calls:
+    `ir.Value(name=..., const_value=tensor)`, `graph.register_initializer(v)`, `output.replace_all_uses_with(v)`,
+    `graph.remove(node, safe=True)`; main graph and nested graphs), for any `lift_all_constants`, any answer `big` of
+    the size test and any naming `tnamed` of the tensors. -/
+theorem C14_wf_lift_constants (liftAll : Bool) (big tnamed : Nat → Bool) (fuel : Nat) (w : World) (g : Nat) (h : WF w) :
+    WF (lcModelK liftAll big tnamed fuel w g).1.w ∧
+    (lcModelK liftAll big tnamed fuel w g).1.w = replay w (lcModelK liftAll big tnamed fuel w g).1.trace.reverse :=
+  ⟨(lcModelK_inv liftAll big tnamed fuel w g h).wf, (lcModelK_inv liftAll big tnamed fuel w g h).rep⟩
+
+/-- **C14_wf_lift_sub_inits** (wave 5): the same for LiftSubgraphInitializersToMainGraphPass (calls:
+    `graph.initializers.pop(name)`, `initializer.name = new_name` with the collision-avoiding counter loop,
+    `model.graph.register_initializer(initializer)`). -/
+theorem C14_wf_lift_sub_inits (fuel : Nat) (w : World) (g : Nat) (h : WF w) :
+    WF (lsiModelK fuel w g).1.w ∧ (lsiModelK fuel w g).1.w = replay w (lsiModelK fuel w g).1.trace.reverse :=
+  ⟨(lsiModelK_inv fuel w g h).wf, (lsiModelK_inv fuel w g h).rep⟩
+
+/-- **C14_wf_dedup** (wave 5): the same for DeduplicateInitializersPass (`tkey = hkey`) and
+    DeduplicateHashedInitializersPass (`hkey` = class of the digest, `tkey` = class of the bytes compared when the
+    digests agree), for ANY classification of the tensors (calls: `initializer.replace_all_uses_with(kept)`,
+    `graph.initializers.pop(name)`; main graph and all subgraphs). -/
+theorem C14_wf_dedup (hkey tkey : Nat → Option Nat) (fuel : Nat) (w : World) (g : Nat) (h : WF w) :
+    WF (ddModelK hkey tkey fuel w g).1.w ∧
+    (ddModelK hkey tkey fuel w g).1.w = replay w (ddModelK hkey tkey fuel w g).1.trace.reverse :=
+  ⟨(ddModelK_inv hkey tkey fuel w g h).wf, (ddModelK_inv hkey tkey fuel w g h).rep⟩
+
+/-- **C14_names_dedup** (wave 5, 'names of kept objects are kept'): Deduplicate(Hashed)InitializersPass as a kernel
+    program renames nothing - every value that has a name before the pass has exactly that name after it, whether
+    the pass returns or raises (so every consumer that is re-pointed to the kept initializer refers to a name that
+    still denotes it). -/
+theorem C14_names_dedup (hkey tkey : Nat → Option Nat) (fuel : Nat) (w : World) (g u : Nat) (nm : String)
+    (hn : (w.val u).name = some nm) : ((ddModelK hkey tkey fuel w g).1.w.val u).name = some nm :=
+  (ddModelK_ninv hkey tkey fuel w g).all_kept u nm hn
+
+/-- **C14_names_lift_constants** (wave 5): LiftConstantsToInitializersPass renames no value that has a name before
+    the pass (the only `Value.name = ...` it issues are for values it created itself: ids that belonged to no named
+    value).  With `C14_names_initializers` the new initializer is registered under the name of the Constant output
+    it replaces. -/
+theorem C14_names_lift_constants (liftAll : Bool) (big tnamed : Nat → Bool) (fuel : Nat) (w : World) (g u : Nat)
+    (nm : String) (hn : (w.val u).name = some nm) :
+    ((lcModelK liftAll big tnamed fuel w g).1.w.val u).name = some nm :=
+  (lcModelK_ninv liftAll big tnamed fuel w g).all_kept u nm hn
+
+/-- **C14_names_kept** (wave 5): CSE and LiftSubgraphInitializers DO rename (CSE gives the output of the kept node
+    the name of the graph output it takes over; LiftSubgraphInitializers renames a lifted initializer whose name
+    collides in the main graph).  Every value that has a name keeps exactly that name unless the pass issued the
+    public call `Value.name = ...` for this very value (read off the trace); no other call of either program -
+    constructors, `graph.outputs[i] = ...`, `insert_before`, `replace_all_uses_with`, `remove`, `initializers.pop`,
+    `register_initializer` - changes the name of a named value. -/
+theorem C14_names_kept (exact : Bool) (akey : Nat → Option Nat) (fuel : Nat) (w : World) (g u : Nat) (nm : String)
+    (hn : (w.val u).name = some nm) :
+    ((∀ t, AnyOp.one (.setName u t) ∉ (cseModelK exact akey w g).1.trace) →
+      ((cseModelK exact akey w g).1.w.val u).name = some nm) ∧
+    ((∀ t, AnyOp.one (.setName u t) ∉ (lsiModelK fuel w g).1.trace) →
+      ((lsiModelK fuel w g).1.w.val u).name = some nm) :=
+  ⟨(cseModelK_ninv exact akey w g).kept u nm hn, (lsiModelK_ninv fuel w g).kept u nm hn⟩
+
+/-- **C14_names_initializers** (wave 5): after each of the four programs every initializer of every graph is
+    registered under its own, non-empty name (the name serialization writes) - in particular the initializers
+    LiftConstants creates and the ones LiftSubgraphInitializers moves and renames.  Corollary of `C14_wf_*`. -/
+theorem C14_names_initializers (exact liftAll : Bool) (akey hkey tkey : Nat → Option Nat) (big tnamed : Nat → Bool)
+    (fuel : Nat) (w : World) (g : Nat) (h : WF w) (w' : World)
+    (hw : w' = (cseModelK exact akey w g).1.w ∨ w' = (lcModelK liftAll big tnamed fuel w g).1.w ∨
+      w' = (lsiModelK fuel w g).1.w ∨ w' = (ddModelK hkey tkey fuel w g).1.w)
+    (g' : Nat) (key : String) (v : Nat) (hm : (key, v) ∈ (w'.gr g').inits) :
+    (w'.val v).name = some key ∧ key ≠ "" := by
+  have hwf : WF w' := by
+    rcases hw with rfl | rfl | rfl | rfl
+    · exact (cseModelK_inv exact akey w g h).wf
+    · exact (lcModelK_inv liftAll big tnamed fuel w g h).wf
+    · exact (lsiModelK_inv fuel w g h).wf
+    · exact (ddModelK_inv hkey tkey fuel w g h).wf
+  exact hwf.key.name g' key v hm
+
 /-- any pass that touches the IR only through the modelled public mutators keeps the invariant: what the two
     theorems above instantiate (`C01_history_from` read as a statement about passes) -/
 theorem C14_wf_replay (w : World) (ops : List AnyOp) (h : WF w) : WF (replay w ops) :=
@@ -2133,5 +2225,122 @@ example : cseMu (cseModel 10 exCse4) < cseMu exCse4 ∧
     cseMu (cseModel 10 (cseModel 10 exCse4)) < cseMu (cseModel 10 exCse4) := by decide
 
 end NonVacuity3
+
+section AddDefaults
+open IrVerif.PassFlags4
+
+/-- **C14_flag_add_defaults** (wave 5): AddDefaultAttributesPass (`Model/PassFlags4.lean`; the ONNX schema table, the
+    opset imports and the visited nodes are arbitrary): `modified = False` implies that every visited node has exactly
+    the attribute dictionary it had (same keys, same order, same values). -/
+theorem C14_flag_add_defaults (tbl : SchemaTable) (imports : List (String × Nat)) (ns : List ANode)
+    (h : (addDefaults tbl imports ns).2 = false) : (addDefaults tbl imports ns).1 = ns :=
+  addDefaults_flag_false tbl imports ns h
+
+/-- **C14_fix_add_defaults**: the pass is idempotent - applied to its own result it reports `False` and returns it
+    unchanged (whatever the schema table says; a node without version / schema is skipped both times). -/
+theorem C14_fix_add_defaults (tbl : SchemaTable) (imports : List (String × Nat)) (ns : List ANode) :
+    addDefaults tbl imports (addDefaults tbl imports ns).1 = ((addDefaults tbl imports ns).1, false) :=
+  addDefaults_idem tbl imports ns
+
+/-- **C14_measure_add_defaults**: the measure `absentCount` = number of (visited node, optional attribute with a valid
+    default that the node does not have) pairs: the flag is down exactly when it is 0, it is 0 after one application,
+    hence strictly smaller whenever the flag is up. -/
+theorem C14_measure_add_defaults (tbl : SchemaTable) (imports : List (String × Nat)) (ns : List ANode) :
+    ((addDefaults tbl imports ns).2 = false ↔ absentCount tbl imports ns = 0) ∧
+    absentCount tbl imports (addDefaults tbl imports ns).1 = 0 ∧
+    ((addDefaults tbl imports ns).2 = true →
+      absentCount tbl imports (addDefaults tbl imports ns).1 < absentCount tbl imports ns) := by
+  refine ⟨addDefaults_flag_iff tbl imports ns, absentCount_after tbl imports ns, fun h => ?_⟩
+  rw [absentCount_after]
+  have := (addDefaults_flag_iff tbl imports ns).not
+  simp only [h, Bool.true_eq_false, not_false_eq_true, true_iff] at this
+  omega
+
+/-- **C14_rounds_add_defaults**: a PassManager with `early_stop` around AddDefaultAttributes executes at most two
+    rounds and, given at least two steps, ends in a state the pass maps to itself reporting `False`. -/
+theorem C14_rounds_add_defaults (tbl : SchemaTable) (imports : List (String × Nat)) (n : Nat) (ns : List ANode)
+    (m : ModelId) :
+    let round : List ANode → ModelId → Res (List ANode) :=
+      fun s m => ((addDefaults tbl imports s).1, .ok ⟨m, (addDefaults tbl imports s).2⟩)
+    (mgrLoop round true n ns m false).2.2.length ≤ 2 ∧
+    ∀ s' r fl, 1 < n → mgrLoop round true n ns m false = (s', .ok r, fl) →
+      (addDefaults tbl imports s').1 = s' ∧ (addDefaults tbl imports s').2 = false := by
+  intro round
+  have hμ : ∀ s, (if absentCount tbl imports s = 0 then 0 else 1) ≤ 1 := fun s => by split <;> omega
+  have key := C14_pure_rounds (fun s => (addDefaults tbl imports s).1) (fun s => (addDefaults tbl imports s).2)
+    (fun s => if absentCount tbl imports s = 0 then 0 else 1)
+    (fun s h => addDefaults_flag_false tbl imports s h)
+    (fun s h => by
+      have h1 := (C14_measure_add_defaults tbl imports s).2.2 h
+      have h2 := (C14_measure_add_defaults tbl imports s).2.1
+      simp only [h2, ↓reduceIte]
+      split
+      · omega
+      · omega) n ns m
+  refine ⟨Nat.le_trans key.1 (by have := hμ ns; omega), fun s' r fl hn h => key.2 s' r fl ?_ h⟩
+  have := hμ ns; omega
+
+end AddDefaults
+
+namespace NonVacuity5
+open IrVerif.Kernel IrVerif.PassKernel
+
+namespace AddDef
+open IrVerif.PassFlags4
+/-- LeakyRelu has an optional `alpha` with a default, Cast a required `to` and an optional `saturate`; `Foo` has no schema -/
+def tbl : SchemaTable := fun d op v =>
+  if d = "" ∧ op = "LeakyRelu" ∧ v = 18 then some [⟨"alpha", false, some 1⟩]
+  else if d = "" ∧ op = "Cast" ∧ v = 18 then some [⟨"saturate", false, some 2⟩, ⟨"to", true, none⟩]
+  else none
+def ns : List ANode := [⟨"", "LeakyRelu", none, []⟩, ⟨"", "Cast", none, [("to", 7)]⟩, ⟨"", "Foo", none, []⟩,
+  ⟨"", "LeakyRelu", some 18, [("alpha", 5)]⟩, ⟨"other", "LeakyRelu", none, []⟩]
+example : (addDefaults tbl [("", 18)] ns).2 = true ∧ absentCount tbl [("", 18)] ns = 2 ∧
+    (addDefaults tbl [("", 18)] ns).1 = [⟨"", "LeakyRelu", none, [("alpha", 1)]⟩,
+      ⟨"", "Cast", none, [("to", 7), ("saturate", 2)]⟩, ⟨"", "Foo", none, []⟩,
+      ⟨"", "LeakyRelu", some 18, [("alpha", 5)]⟩, ⟨"other", "LeakyRelu", none, []⟩] := by decide
+example : (addDefaults tbl [("", 18)] (addDefaults tbl [("", 18)] ns).1).2 = false := by decide
+end AddDef
+
+/-- x -> Relu -> a, x -> Relu -> b, graph output b: CSE keeps a, which takes over b's name -/
+def wCse : World := runAny [.one (.newValue (some "x")), .one (.newNode "Relu" none [some 0] none none none),
+  .one (.newNode "Relu" none [some 0] none none none), .one (.newGraph [0] [2] [0, 1] [])]
+example : WF wCse := C01_history _
+example : (cseModelK false (fun _ => some 0) wCse 0).2 = true ∧ (cseModelK false (fun _ => some 0) wCse 0).1.raised = false ∧
+    (cseModelK false (fun _ => some 0) wCse 0).1.trace.length = 4 ∧
+    (wCse.val 0).name = some "x" ∧ ((cseModelK false (fun _ => some 0) wCse 0).1.w.val 0).name = some "x" ∧
+    (wCse.val 1).name = some "val_0" ∧ ((cseModelK false (fun _ => some 0) wCse 0).1.w.val 1).name = some "val_1" ∧
+    ((cseModelK false (fun _ => some 0) wCse 0).1.w.gr 0).outputs = [1] := by decide +kernel
+
+/-- a Constant node with a `value` attribute whose output feeds a Relu: lifted to an initializer called like the output -/
+def wLc : World := runAny [.one (.newNodeAttrs "Constant" none [] none none none [("value", [])]),
+  .one (.setName 0 (some "c")), .one (.newNode "Relu" none [some 0] none none none), .one (.newGraph [] [1] [0, 1] [])]
+example : (lcModelK false (fun _ => true) (fun _ => false) 4 wLc 0).2 = 1 ∧
+    (lcModelK false (fun _ => true) (fun _ => false) 4 wLc 0).1.raised = false ∧
+    ((lcModelK false (fun _ => true) (fun _ => false) 4 wLc 0).1.w.gr 0).inits = [("c", 2)] ∧
+    ((lcModelK false (fun _ => true) (fun _ => false) 4 wLc 0).1.w.val 0).name = some "c" ∧
+    ((lcModelK false (fun _ => true) (fun _ => false) 4 wLc 0).1.w.node 1).inputs = [some 2] := by decide +kernel
+
+/-- an If-like node whose branch holds an initializer called like an input of the main graph: lifted and renamed -/
+def wLsi : World := runAny [.one (.newValue (some "x")), .one (.newValue (some "x")), .one (.setConst 1 false),
+  .one (.newNode "Relu" none [some 1] none none none), .one (.newGraph [] [2] [0] [1]),
+  .one (.newNodeAttrs "If" none [some 0] none none none [("body", [0])]), .one (.newGraph [0] [3] [1] [])]
+example : (lsiModelK 4 wLsi 1).2 = 1 ∧ (lsiModelK 4 wLsi 1).1.raised = false ∧
+    ((lsiModelK 4 wLsi 1).1.w.gr 1).inits = [("x_1", 1)] ∧ ((lsiModelK 4 wLsi 1).1.w.gr 0).inits = [] ∧
+    ((lsiModelK 4 wLsi 1).1.w.val 1).name = some "x_1" ∧ ((lsiModelK 4 wLsi 1).1.w.val 0).name = some "x" ∧
+    (lsiModelK 4 wLsi 1).1.trace.length = 3 := by decide +kernel
+
+/-- two initializers with the same content, each used once: the second is replaced by the first and popped -/
+def wDd : World := runAny [.one (.newValue (some "a")), .one (.setConst 0 false), .one (.newValue (some "b")),
+  .one (.setConst 1 false), .one (.newNode "Add" none [some 0, some 1] none none none), .one (.newGraph [] [2] [0] [0, 1])]
+example : (ddModelK (fun _ => some 0) (fun _ => some 0) 4 wDd 0).2 = true ∧
+    (ddModelK (fun _ => some 0) (fun _ => some 0) 4 wDd 0).1.raised = false ∧
+    ((ddModelK (fun _ => some 0) (fun _ => some 0) 4 wDd 0).1.w.gr 0).inits = [("a", 0)] ∧
+    ((ddModelK (fun _ => some 0) (fun _ => some 0) 4 wDd 0).1.w.node 0).inputs = [some 0, some 0] ∧
+    ((ddModelK (fun _ => some 0) (fun _ => some 0) 4 wDd 0).1.w.val 1).name = some "b" := by decide +kernel
+/-- hashed variant, equal digests but different bytes: nothing happens -/
+example : (ddModelK (fun _ => some 0) (fun v => some v) 4 wDd 0).2 = false ∧
+    (ddModelK (fun _ => some 0) (fun v => some v) 4 wDd 0).1.trace = [] := by decide +kernel
+
+end NonVacuity5
 
 end IrVerif.PassInfra
